@@ -99,6 +99,33 @@ def handle (op : String) (a : Json) : Option R :=
       if T.length ≠ e.length ∨ peaks.any (fun p => p.length ≠ T.length) then throw "BadArg:rank"
       let out := extraction T e peaks (← getBool a "drop")
       pure (jList (out.map (fun (i, w) => Json.mkObj [("i", jNat i), ("w", jList (w.map jWin))])))
+  | "c11.peaks" => some do
+      let rows ← (← getArr a "t").toList.mapM (fun row => do
+        (← row.getArr?).toList.mapM (fun x => do
+          match ← intList (← x.getArr?) with
+          | [m, e] => pure (m, e)
+          | _ => throw "BadArg:float"))
+      pure (jIntss (truncPeaks rows))
+  | "c11.keepRows" => some do
+      let T ← getNatList a "target"; let e ← getNatList a "box"
+      let peaks ← getIntListList a "peaks"
+      if T.length ≠ e.length ∨ peaks.any (fun p => p.length ≠ T.length) then throw "BadArg:rank"
+      let drop ← getBool a "drop"
+      let r := List.range peaks.length
+      let o ← liftE (extractionSubset (⟨r, r, r, r⟩ : Orient Nat Nat Nat Nat) T e peaks drop)
+      pure (Json.mkObj [("mask", jList ((keepMask T e peaks drop).map jBool)),
+        ("rows", jNatss [o.translations, o.rotations, o.scores, o.details])])
+  | "c11.copy" => some do
+      let r := List.range (← getNat a "n")
+      let o ← liftE (Orient.copy (⟨r, r, r, r⟩ : Orient Nat Nat Nat Nat))
+      pure (jNatss [o.translations, o.rotations, o.scores, o.details])
+  | "c11.iter" => some do
+      let r := List.range (← getNat a "n")
+      pure (jList ((Orient.iterRows (⟨r, r, r, r⟩ : Orient Nat Nat Nat Nat)).map
+        (fun x => jNats [x.1, x.2.1, x.2.2.1, x.2.2.2])))
+  | "c11.postInit" => some do
+      let _ ← liftE (postInit (← getNatList a "t") (← getNatList a "r") (← getNatList a "s") (← getNatList a "d"))
+      pure (Json.str "ok")
   | "c11.dispatch" => some do
       let fname ← getS a "fname"
       let fmt ← optS a "fmt"
